@@ -47,7 +47,8 @@ class Runner(object):
         self.n = 0
 
     def model(self, script, as_found=False):
-        cmd = [self.drv] + (["--as-found"] if as_found else [])
+        # as_found: False = repaired behaviour, True = all quirks, or a string "d4,d6"
+        cmd = [self.drv] + (["--as-found"] if as_found is True else ["--quirks", as_found] if as_found else [])
         rc, out, err = vplib.sh(cmd, input=script, timeout=120)
         if rc != 0:
             raise RuntimeError("model driver failed (%d): %s" % (rc, err[-500:]))
